@@ -1,1 +1,2 @@
-(* Props/C06.v -- stub, to be filled *)
+(* C06 statements pinned here *)
+From A1 Require Import Uper.Reader.
